@@ -24,6 +24,12 @@ Lemma gen_wiring_CubePartition__only_larger :
       WTrue] []) (WFalse)) (WFalse) (WTrue)).
 Proof. reflexivity. Qed.
 
+(* _Slice.columns_squared_base *)
+Lemma gen_wiring_Slice_columns_squared_base :
+  wsrc_Slice_columns_squared_base = Some (WIf (WUn "not" (WAttr (WAttr (WSelf "_measures")
+      "columns_squared_base") "is_defined")) (WNone) (w_marginal_of "columns_squared_base")).
+Proof. reflexivity. Qed.
+
 (* _Slice.columns_scale_mean_pairwise_indices *)
 Lemma gen_wiring_Slice_columns_scale_mean_pairwise_indices :
   wsrc_Slice_columns_scale_mean_pairwise_indices = Some (WCall (WAttr (WGlobal "PairwiseSignificance")
@@ -162,4 +168,76 @@ Lemma gen_wiring_Slice__cube_has_overlaps :
       [WInt (-1)%Z]) "dimension_type") (WAttr (WGlobal "DT") "MR"); WCmp "is not" (WAttr (WSelf
       "_cube") "overlaps") (WNone); WCmp "is not" (WAttr (WSelf "_cube") "valid_overlaps")
       (WNone)]).
+Proof. reflexivity. Qed.
+
+(* SecondOrderMeasures.column_squared_bases *)
+Lemma gen_wiring_SecondOrderMeasures_column_squared_bases :
+  wsrc_SecondOrderMeasures_column_squared_bases = Some (WCall (WGlobal "_ColumnSquaredBases") [WSelf
+      "_dimensions"; WVar "self"; WSelf "_cube_measures"] []).
+Proof. reflexivity. Qed.
+
+(* SecondOrderMeasures.columns_squared_base *)
+Lemma gen_wiring_SecondOrderMeasures_columns_squared_base :
+  wsrc_SecondOrderMeasures_columns_squared_base = Some (WCall (WGlobal "_MarginSquaredBase") [WSelf
+      "_dimensions"; WVar "self"; WSelf "_cube_measures"; WAttr (WGlobal "MO") "COLUMNS"] []).
+Proof. reflexivity. Qed.
+
+(* SecondOrderMeasures.pairwise_p_vals_for_subvar *)
+Lemma gen_wiring_SecondOrderMeasures_pairwise_p_vals_for_subvar :
+  wsrc_SecondOrderMeasures_pairwise_p_vals_for_subvar = Some (WCall (WGlobal
+      "_PairwiseSigPValsForSubvar") [WSelf "_dimensions"; WVar "self"; WSelf "_cube_measures"; WVar
+      "subvar_idx"] []).
+Proof. reflexivity. Qed.
+
+(* SecondOrderMeasures.pairwise_t_stats_for_subvar *)
+Lemma gen_wiring_SecondOrderMeasures_pairwise_t_stats_for_subvar :
+  wsrc_SecondOrderMeasures_pairwise_t_stats_for_subvar = Some (WCall (WGlobal
+      "_PairwiseSigTStatsForSubvar") [WSelf "_dimensions"; WVar "self"; WSelf "_cube_measures"; WVar
+      "subvar_idx"] []).
+Proof. reflexivity. Qed.
+
+(* SecondOrderMeasures.pairwise_p_vals *)
+Lemma gen_wiring_SecondOrderMeasures_pairwise_p_vals :
+  wsrc_SecondOrderMeasures_pairwise_p_vals = Some (WCall (WGlobal "_PairwiseSigPvals") [WSelf
+      "_dimensions"; WVar "self"; WSelf "_cube_measures"; WVar "column_idx"] []).
+Proof. reflexivity. Qed.
+
+(* SecondOrderMeasures.pairwise_t_stats *)
+Lemma gen_wiring_SecondOrderMeasures_pairwise_t_stats :
+  wsrc_SecondOrderMeasures_pairwise_t_stats = Some (WCall (WGlobal "_PairwiseSigTstats") [WSelf
+      "_dimensions"; WVar "self"; WSelf "_cube_measures"; WVar "column_idx"] []).
+Proof. reflexivity. Qed.
+
+(* SecondOrderMeasures.pairwise_significance_means_p_vals *)
+Lemma gen_wiring_SecondOrderMeasures_pairwise_significance_means_p_vals :
+  wsrc_SecondOrderMeasures_pairwise_significance_means_p_vals = Some (WCall (WGlobal
+      "_PairwiseMeansSigPVals") [WSelf "_dimensions"; WVar "self"; WSelf "_cube_measures"; WVar
+      "column_idx"] []).
+Proof. reflexivity. Qed.
+
+(* SecondOrderMeasures.pairwise_significance_means_t_stats *)
+Lemma gen_wiring_SecondOrderMeasures_pairwise_significance_means_t_stats :
+  wsrc_SecondOrderMeasures_pairwise_significance_means_t_stats = Some (WCall (WGlobal
+      "_PairwiseMeansSigTStats") [WSelf "_dimensions"; WVar "self"; WSelf "_cube_measures"; WVar
+      "column_idx"] []).
+Proof. reflexivity. Qed.
+
+(* BaseSecondOrderMeasure._weighted_squared_cube_counts *)
+Lemma gen_wiring_BaseSecondOrderMeasure__weighted_squared_cube_counts :
+  wsrc_BaseSecondOrderMeasure__weighted_squared_cube_counts = Some (WAttr (WSelf "_cube_measures")
+      "weighted_squared_cube_counts").
+Proof. reflexivity. Qed.
+
+(* MatrixCubeMeasures.cube_overlaps *)
+Lemma gen_wiring_MatrixCubeMeasures_cube_overlaps :
+  wsrc_MatrixCubeMeasures_cube_overlaps = Some (WCall (WAttr (WGlobal "_BaseCubeOverlaps") "factory")
+      [WSelf "_cube"; WSelf "_dimensions"; WSelf "_slice_idx"] []).
+Proof. reflexivity. Qed.
+
+(* MatrixCubeMeasures.weighted_squared_cube_counts *)
+Lemma gen_wiring_MatrixCubeMeasures_weighted_squared_cube_counts :
+  wsrc_MatrixCubeMeasures_weighted_squared_cube_counts = Some (WIf (WCmp "is" (WAttr (WSelf "_cube")
+      "weighted_squared_counts") (WNone)) (WNone) (WCall (WAttr (WGlobal "_BaseCubeCounts")
+      "factory") [WAttr (WSelf "_cube") "weighted_squared_counts"; WFalse; WSelf "_cube"; WSelf
+      "_dimensions"; WSelf "_slice_idx"] [])).
 Proof. reflexivity. Qed.
